@@ -81,11 +81,13 @@ VARIABLES conf,     \* [stack, cap, dttl]
           foreign,  \* -1, or seconds left of a foreign write to the backend entry since the latest store/delete
           \* observation (not part of the VIEW)
           op,       \* the operation just performed, with its reply and the backend content after it
-          hist      \* all operations so far
+          hist,     \* all operations so far
+          pk        \* pk[<<w, k>>] = what a single-key read of k through view w would return now
+                    \* (a function of lru and bk, kept in a variable so that each step computes it once)
 
 mech   == <<lru, bk>>
 ghosts == <<last, ownLeft, retLeft, foreign>>
-vars   == <<conf, lru, bk, last, ownLeft, retLeft, foreign, op, hist>>
+vars   == <<conf, lru, bk, last, ownLeft, retLeft, foreign, op, hist, pk>>
 View   == <<conf, lru, bk, last, ownLeft, retLeft, foreign>>
 
 Kinds     == AllStacks[conf.stack]
@@ -228,8 +230,12 @@ NoRep == [found |-> <<>>, err |-> FALSE, stored |-> TRUE, live |-> FALSE]
 Op(name, w, keys, vals, ttl, rep, nd, b) ==
   [name |-> name, w |-> w, keys |-> keys, vals |-> vals, ttl |-> ttl, rep |-> rep, nd |-> nd, bk |-> BkView(b)]
 
-Record(o) == /\ op' = o
+PeekMap(st) == [x \in (1..NViews) \X Keys |-> IF x[1] \in Views THEN Peek(st, x[1], x[2]) ELSE None]
+
+Record(o) == /\ op' = o            \* last conjunct of every action: lru' and bk' are determined
              /\ hist' = Append(hist, o)
+             /\ conf' = conf
+             /\ pk' = PeekMap([lru |-> lru', bk |-> bk'])
 
 Stored(w, ks, vals, ttl) ==      \* ghost update of a successful store of ks[j] -> vals[j]
   /\ last'    = [x \in DOMAIN last |-> IF x[1] = w /\ \E j \in 1..Len(ks) : ks[j] = x[2]
@@ -308,23 +314,18 @@ KeySets == {CHOOSE s \in KeySeqs : Range(s) = S : S \in {Range(t) : t \in {u \in
    SetMultiAsync have, by definition above, the effect of Set, so the configurations that decide the
    properties leave them out (Full = FALSE); the generation configurations include them (Full = TRUE)
    because the code paths differ. *)
-Core ==
-  \/ \E w \in Views, k \in Keys, v \in Values, ttl \in TTLs : Set("set", w, k, v, ttl)
-  \/ \E w \in Views, ks \in KeySets, ttl \in TTLs : \E vals \in [1..Len(ks) -> Values] : SetMulti(w, ks, vals, ttl)
-  \/ \E w \in Views, k \in Keys, v \in Values, ttl \in TTLs : Add(w, k, v, ttl)
-  \/ \E w \in Views, ks \in KeySeqs : Get(w, ks)
-  \/ \E w \in Views, k \in Keys : Delete(w, k)
-  \/ \E d \in Deltas : Advance(d)
-  \/ \E w \in Views, k \in Keys, ttl \in PokeTTLs : Poke(w, k, ttl)
+SetOp      == \E w \in Views, k \in Keys, v \in Values, ttl \in TTLs : Set("set", w, k, v, ttl)
+SetMultiOp == \E w \in Views, ks \in KeySets, ttl \in TTLs : \E vals \in [1..Len(ks) -> Values] : SetMulti(w, ks, vals, ttl)
+AddOp      == \E w \in Views, k \in Keys, v \in Values, ttl \in TTLs : Add(w, k, v, ttl)
+GetOp      == \E w \in Views, ks \in KeySeqs : Get(w, ks)
+DeleteOp   == \E w \in Views, k \in Keys : Delete(w, k)
+AdvanceOp  == \E d \in Deltas : Advance(d)
+PokeOp     == \E w \in Views, k \in Keys, ttl \in PokeTTLs : Poke(w, k, ttl)
+SetAsyncOp == Full /\ \E w \in Views, k \in Keys, v \in Values, ttl \in TTLs : Set("setasync", w, k, v, ttl)
+SetMulti1Op == Full /\ \E w \in Views, k \in Keys, v \in Values, ttl \in TTLs : SetMulti(w, <<k>>, <<v>>, ttl)
 
-Variants ==
-  \/ \E w \in Views, k \in Keys, v \in Values, ttl \in TTLs : Set("setasync", w, k, v, ttl)
-  \/ \E w \in Views, k \in Keys, v \in Values, ttl \in TTLs : SetMulti(w, <<k>>, <<v>>, ttl)
-
-Next ==
-  /\ UNCHANGED conf
-  /\ \/ Core
-     \/ Full /\ Variants
+Next == \/ SetOp \/ SetMultiOp \/ AddOp \/ GetOp \/ DeleteOp \/ AdvanceOp \/ PokeOp
+        \/ SetAsyncOp \/ SetMulti1Op
 
 HasLru(s) == \E i \in 1..Len(AllStacks[s]) : AllStacks[s][i] = "lru"
 Confs == {c \in [stack : StackIds, cap : Caps, dttl : DTTLs] :
@@ -340,6 +341,7 @@ Init ==
   /\ foreign = [x \in (1..NViews) \X Keys |-> -1]
   /\ op = Op("init", 0, <<>>, <<>>, 0, NoRep, FALSE, <<>>)
   /\ hist = <<>>
+  /\ pk = [x \in (1..NViews) \X Keys |-> None]
 
 Spec == Init /\ [][Next]_vars
 
@@ -366,10 +368,11 @@ KeysWellPlaced ==
      IF VerPos # 0 /\ s[1] > VerPos THEN lru[s][j].key[1] \in Views ELSE lru[s][j].key[1] = 0
 
 (* State form of the read clauses: what any single-key read would return now *)
+PkIsPeek == pk = PeekMap(Cur)
 PeekNeverWrong ==
-  \A w \in Views, k \in Keys : LET p == Peek(Cur, w, k) IN p # None => p = last[<<w, k>>]
+  \A x \in DOMAIN pk : pk[x] # None => pk[x] = last[x]
 PeekNeverAfterDeadline ==
-  \A w \in Views, k \in Keys : Peek(Cur, w, k) # None => ownLeft[<<w, k>>] > 0 \/ retLeft[<<w, k>>] > 0
+  \A x \in DOMAIN pk : pk[x] # None => ownLeft[x] > 0 \/ retLeft[x] > 0
 (* staleness is bounded: a copy outlives its own TTL by less than the default retention *)
 PeekBoundedStaleness ==
   \A x \in DOMAIN retLeft : retLeft[x] > 0 /\ ownLeft[x] = 0 => retLeft[x] < conf.dttl * Cardinality({i \in 1..NL : Kinds[i] = "lru"})
@@ -391,14 +394,14 @@ NeverCorrupt ==        \* undecodable bytes never reach the client; errors only 
               /\ op'.rep.err => \E x \in DOMAIN foreign : foreign[x] >= 0]_vars
 ReadIsPeek ==          \* a multi-key read returns, per key, what the single-key read would have
   [][IsGet => \A k \in Range(op'.keys) :
-        Peek(Cur, op'.w, k) = IF k \in Returned THEN op'.rep.found[k] ELSE None]_vars
+        pk[<<op'.w, k>>] = IF k \in Returned THEN op'.rep.found[k] ELSE None]_vars
 
 WriteOps == {"set", "setasync", "setmulti", "add", "delete", "poke"}
 NoAlias ==             \* a write under (w,k) can at most make another (w2,k2) disappear (eviction)
   [][op'.name \in WriteOps =>
        \A w2 \in Views, k2 \in Keys :
           (w2 # op'.w \/ k2 \notin Range(op'.keys)) =>
-             Peek([lru |-> lru', bk |-> bk'], w2, k2) \in {Peek(Cur, w2, k2), None}]_vars
+             pk'[<<w2, k2>>] \in {pk[<<w2, k2>>], None}]_vars
 
 AddSemantics ==
   [][op'.name = "add" =>
@@ -406,14 +409,14 @@ AddSemantics ==
        /\ op'.rep.stored = ~Live(w, k)        \* refused exactly while the entry is live for the client
        /\ op'.rep.live = Live(w, k)
        /\ ~op'.rep.stored => UNCHANGED <<mech, ghosts>>
-       /\ op'.rep.stored => Peek([lru |-> lru', bk |-> bk'], w, k) = op'.vals[1]]_vars
+       /\ op'.rep.stored => pk'[<<w, k>>] = op'.vals[1]]_vars
 
 ReadYourWrites ==      \* (not part of C19; guards against a vacuous specification)
   [][op'.name \in {"set", "setasync", "setmulti"} =>
-       \A j \in 1..Len(op'.keys) : Peek([lru |-> lru', bk |-> bk'], op'.w, op'.keys[j]) = op'.vals[j]]_vars
+       \A j \in 1..Len(op'.keys) : pk'[<<op'.w, op'.keys[j]>>] = op'.vals[j]]_vars
 
 DeleteRemoves ==
-  [][op'.name = "delete" => Peek([lru |-> lru', bk |-> bk'], op'.w, op'.keys[1]) = None]_vars
+  [][op'.name = "delete" => pk'[<<op'.w, op'.keys[1]>>] = None]_vars
 
 ----------------------------------------------------------------------------
 (* SYMMETRY of the deciding configurations (Keys and Values are sets of model values there): nothing in
